@@ -136,3 +136,8 @@ func AltType(kind string) ir.SchemaType {
 	name := map[string]string{"string": "AltString", "int64": "AltInt64", "bool": "AltBool"}[kind]
 	return ir.SchemaType{Type: "verif/rt/tfx." + name + "Type", ValueType: "verif/rt/tfx." + name, CastToType: kind, CastFromType: kind}
 }
+
+// Trail gives a field a trailing comment (and a detached one), which never is the description.
+func Trail(c string) FieldOpt {
+	return func(f *ir.Field) { f.Trailing = c; f.Detached = []string{" detached above " + f.Name + "\n"} }
+}
